@@ -64,10 +64,13 @@ Limit = codec.DecompressionLimitExceeded
 # ------------------------------------------------------------------------------------------
 
 
-def zstd_frame(D: bytes, declared: bool, level: int = 3) -> bytes:
+def zstd_frame(D: bytes, declared: bool, level: int = 3, window_log: int | None = None) -> bytes:
+    """window_log: the frame header's window as the level tables of the high levels (20-22: logs 25-27) write it for
+    streaming input, produced cheaply with explicit parameters instead of building a level-22 compressor."""
+    kw = {"level": level} if window_log is None else {"compression_params": zstandard.ZstdCompressionParameters.from_level(level, window_log=window_log)}
     if declared:
-        return zstandard.ZstdCompressor(level=level).compress(D)
-    co = zstandard.ZstdCompressor(level=level).compressobj()  # streaming: size unknown up front
+        return zstandard.ZstdCompressor(**kw).compress(D)
+    co = zstandard.ZstdCompressor(**kw).compressobj()  # streaming: size unknown up front
     return co.compress(D) + co.flush()
 
 
@@ -109,7 +112,7 @@ def _D_of(inputs):
 
 def replay_zstd(inputs, ob):
     D, m = _D_of(inputs), _cap_of(inputs)
-    frame = zstd_frame(D, inputs.get("header") == "declared")
+    frame = zstd_frame(D, inputs.get("header") == "declared", window_log=inputs.get("window_log"))
     bad, txt = judge_native(lambda: codec._decompress_body_zstd(frame, max_output_size=m), D, m)
     return ReplayResult(bad, f"_decompress_body_zstd({inputs.get('header')} frame of {len(D)} bytes, max_output_size={m}) {txt}")
 
@@ -129,12 +132,15 @@ def _grid():
 
 
 def search_zstd(ob, seed):
-    for header in ("declared", "unknown"):
-        for D, m in _grid():
-            inputs = {"D": D, "capped": m is not None, "max_output_size": m, "header": header}
-            rr = replay_zstd(inputs, ob)
-            if rr.confirmed:
-                return {**inputs, "D": D[:64]}, rr
+    for wlog in (None, 27, 23):
+        for header in ("declared", "unknown"):
+            for D, m in _grid():
+                if wlog is not None and len(D) not in (1, 65537):
+                    continue
+                inputs = {"D": D, "capped": m is not None, "max_output_size": m, "header": header, "window_log": wlog}
+                rr = replay_zstd(inputs, ob)
+                if rr.confirmed:
+                    return {**inputs, "D": D[:64]}, rr
     return None
 
 
@@ -492,7 +498,7 @@ GZIP_LEVELS = list(range(-1, 10))
 
 @bounded(
     "O4.round_trip_and_caps_on_the_real_codecs",
-    bound="all byte strings of length <= 3 over {00,61,7f,ff} at every level (zstd -5..22, gzip -1..9, identity) plus structured inputs (zeros, text, random, mixed) of 4 KiB, 65535, 65536, 65537 bytes and 1 MiB (quick: levels zstd {-1,1,3,19} / gzip {1,6,9}; thorough: all levels); frames from compress(), the zstd streaming compressor (no size header) and multi-flush gzip streams; caps {None,0,len-1,len,len+1,len+64Ki,2^40}",
+    bound="all byte strings of length <= 3 over {00,61,7f,ff} at every level (zstd -5..22, gzip -1..9, identity) plus structured inputs (zeros, text, random, mixed) of 4 KiB, 65535, 65536, 65537 bytes and 1 MiB (quick: levels zstd {-1,1,3,19} / gzip {1,6,9}; thorough: all levels); frames from compress(), the zstd streaming compressor (no size header; also with the header window logs 25-27 of levels 20-22) and multi-flush gzip streams; caps {None,0,len-1,len,len+1,len+64Ki,2^40}",
     tiers=("quick", "thorough"),
 )
 def standin_round_trip(tier, seed):
@@ -530,6 +536,11 @@ def standin_round_trip(tier, seed):
             check(f"gzip level={lv} {len(x)} bytes", E.GZIP, codec.compress(E.GZIP, x, level=lv), x)
         check(f"zstd streaming frame {len(x)} bytes", E.ZSTD, zstd_frame(x, declared=False), x)
         check(f"gzip multi-flush stream {len(x)} bytes", E.GZIP, gzip_frame(x, pieces=5), x)
+    # streaming frames whose header carries the window of the high levels (20-22 write window logs 25-27)
+    for x in (b"x", bytes(range(256)) * 300):
+        for wlog in (25, 26, 27):
+            check(f"zstd streaming frame window_log={wlog} {len(x)} bytes", E.ZSTD, zstd_frame(x, declared=False, window_log=wlog), x)
+            check(f"zstd one-shot frame window_log={wlog} {len(x)} bytes", E.ZSTD, zstd_frame(x, declared=True, window_log=wlog), x)
     return BoundedResult(n, fails)
 
 
